@@ -201,6 +201,10 @@ def execute(req, env: Env):
                 env.eqs[key] = _make_eq(EQS[eqid.split("#")[0]], env)
             eq = env.eqs[key]
             state = env.field(gid)
+            if backend.endswith("+complex"):  # the same equation object evaluated on a complex copy of the state
+                backend = backend.split("+")[0]
+                state = state.copy(dtype=complex)
+                state.data[...] = state.data * (1 + 0.5j)
             if kind == "rate":
                 return _digest(np, eq.evolution_rate(state, 0.5))
             if kind == "rhs":
@@ -368,6 +372,13 @@ def alphabet(family, tier):
             reqs.append(["rhs", eqid + "#2", "B", "numba"])  # a second instance on an equal grid of another class
         reqs.append(["mkop", "A", "laplace", "v0", "numba", 0])
         reqs.append(["mkop", "A", "laplace", "d0", "numba", 0])
+        # ONE equation object used on states of another grid class / coordinate system / dtype
+        for eqid in ("dv0", "p_v0", "ch_vd"):
+            for gid in ("B", "P"):
+                reqs.append(["rate", eqid, gid, "numpy"])
+                reqs.append(["rhs", eqid, gid, "numba"])
+            reqs.append(["rate", eqid, "A", "numpy+complex"])
+            reqs.append(["rhs", eqid, "A", "numba+complex"])
     elif family == "expr":
         for eid in EXPRS:
             n = len(EXPRS[eid][1])
